@@ -276,10 +276,15 @@ type counters struct {
 	byClause                                            map[string]int64
 }
 
+// lexClass names the spelling class of a statement when that class, not the
+// clause, is what a missed check would be about.
 func lexClass(s sqlgen.Stmt) string {
 	for _, t := range s.Tags {
-		if strings.HasPrefix(t, "dotname:") {
+		switch {
+		case strings.HasPrefix(t, "dotname:"):
 			return "quoted-dot-name"
+		case strings.HasPrefix(t, "cteshadow:"):
+			return "cte-name-equals-table"
 		}
 	}
 
@@ -418,8 +423,11 @@ func judge(r sink, w *worker, s sqlgen.Stmt, c *counters) {
 			}
 
 			cell := ep + ":" + n.Clause + ":" + n.Role + "-unchecked"
-			if lc := lexClass(s); lc != "" {
-				cell = ep + ":" + lc + ":checked-under-another-name"
+			switch lexClass(s) {
+			case "quoted-dot-name":
+				cell = ep + ":quoted-dot-name:checked-under-another-name"
+			case "cte-name-equals-table":
+				cell = ep + ":cte-name-equals-table:" + n.Role + "-unchecked"
 			}
 
 			body = elapsedRE.ReplaceAllString(body, `"elapsed":"-"`)
@@ -705,7 +713,7 @@ func main() {
 		report.Fatal("VERIF_SCRATCH is not set")
 	}
 
-	r.Rule(fmt.Sprintf("every statement of the rt/sqlgen grammar families (statement skeletons with at most %d clause options away from the default, for SELECT over the five clauses that can name a table; %d expression positions x %d subquery forms x tables %v; every expression shape to depth %d over %d forms that holds a subquery; spellings) x every (table, permission) it needs by construction and by SQLite EXPLAIN of the text the endpoint executes x {@sql, transaction sql task}, each sent as the user holding every grant except that one; distinct = (endpoint, statement, table, permission)", lv.Options, sqlgen.NumPositions(), sqlgen.NumSubforms(), lv.PosTables, lv.ExprDepth, sqlgen.NumForms()))
+	r.Rule(fmt.Sprintf("every statement of the rt/sqlgen grammar families (statement skeletons with at most %d clause options away from the default, for SELECT over the five clauses that can name a table; %d expression positions x %d subquery forms x tables %v; every expression shape to depth %d over %d forms that holds a subquery; %d CTE scoping shapes plus every position holding a WITH that reuses the name of a table the host touches; spellings) x every (table, permission) it needs by construction and by SQLite EXPLAIN of the text the endpoint executes x {@sql, transaction sql task}, each sent as the user holding every grant except that one; distinct = (endpoint, statement, table, permission)", lv.Options, sqlgen.NumPositions(), sqlgen.NumSubforms(), lv.PosTables, lv.ExprDepth, sqlgen.NumForms(), sqlgen.NumCTEShapes()))
 	r.Assume(
 		"a need is binding only if the generator placed the table in that role AND SQLite's compilation (EXPLAIN) of the text the endpoint executes opens the table that way (reformatted text for @sql, the client's text for the transaction task); a statement SQLite rejects cannot touch anything and is not judged",
 		"reading through a view needs read on the view name only; the target of UPDATE/DELETE needs only the update/delete permission; CTE names need nothing; temp-schema DDL needs no DSN-administrator authority",
@@ -725,8 +733,11 @@ func main() {
 			s.Uses = []sqlgen.Use{{Table: w.Missing.Table, Role: w.Missing.Role, Clause: w.Missing.Clause}}
 		}
 
-		if w.LexClass == "quoted-dot-name" {
+		switch w.LexClass {
+		case "quoted-dot-name":
 			s.Tags = []string{"dotname:replay"}
+		case "cte-name-equals-table":
+			s.Tags = []string{"cteshadow:replay"}
 		}
 
 		replayMode = true
